@@ -56,6 +56,13 @@ def run_case(args):
                 if rows:
                     vals = ", ".join("(" + ", ".join(lit(v, c.typ) for v, c in zip(r, t.cols)) + ")" for r in rows)
                     stmts.append((f"INSERT INTO {t.name} VALUES {vals}", None))
+        elif x < 0.36 and tables:
+            # INSERT ... SELECT from the table itself (same types), often with an empty or
+            # partial source
+            t = rng.choice(tables)
+            if t.pk() is None:
+                w = rng.choice(["false", "true", gen_pred(rng, t).sql, gen_pred(rng, t).sql])
+                stmts.append((f"INSERT INTO {t.name} SELECT * FROM {t.name} WHERE {w}", None))
         else:
             q = g.query()
             stmts.append((q.sql, q))
